@@ -30,12 +30,13 @@ def configs(tier):
         archs = [(1, 1), (2, 3), (3, 2), (2, 1)]
     else:
         archs = [(nv, nh) for nv in range(1, 6) for nh in range(1, 7)]
-    return [{"kind": k, "nv": nv, "nh": nh} for k in ("positive", "complex") for (nv, nh) in archs]
+    return [{"kind": k, "nv": nv, "nh": nh} for k in ("positive", "complex") for (nv, nh) in archs] + [{"generic": "every shape"}]
 
 
 def canaries(tier):
     return [({"kind": "complex", "nv": 2, "nh": 2}, "spec-drops-hidden-bias"),
-            ({"kind": "positive", "nv": 2, "nh": 2}, "spec-sign-of-weight")]
+            ({"kind": "positive", "nv": 2, "nh": 2}, "spec-sign-of-weight"),
+            ({"generic": "every shape"}, "generic-wrong-contract")]
 
 
 def _opaque(prefix, n, sign="real"):
@@ -63,6 +64,9 @@ def _mk_stub_energy(arr, log, nv):
 
 
 def run_config(ctx, cfg):
+    if cfg.get("generic"):
+        from contracts import gsets
+        return gsets.run(ctx, "C01")
     from drivers import common as DC
     kind, nv, nh = cfg["kind"], cfg["nv"], cfg["nh"]
     canary = getattr(ctx, "canary", None)
@@ -245,6 +249,9 @@ def run_config(ctx, cfg):
 
 
 def replay(o):
+    if o["cfg"].get("generic"):
+        from contracts import gsets
+        return gsets.replay("C01", o)
     from drivers import C01 as D
     env = (o.get("witness") or {}).get("env")
     cfg = o["cfg"]
